@@ -318,7 +318,9 @@ class Mirror:
         if k == "leaf":
             return self.leaf_m(d[1], x)
         if k == "none":
-            return x
+            if x is None:
+                return x
+            raise ModelRaise("EValue")
         if k == "seq":
             return [self.mar(d[3], v) for v in self.itervalues(x)]
         if k == "map":
